@@ -71,7 +71,8 @@ func TestGvcReplay(t *testing.T) {
 	// codec round trip, requests and responses, with and without status
 	codec := NewCodec()
 	for _, ty := range []gorumsMsgType{requestType, responseType} {
-		for _, st := range []*status.Status{nil, status.New(codes.NotFound, "nope"), status.New(codes.Internal, "")} {
+		long := "a handler error message that is much longer than one hundred and twenty-eight bytes, so that the metadata no longer fits a one-byte length prefix: " + fmt.Sprint(make([]int, 40))
+		for _, st := range []*status.Status{nil, status.New(codes.NotFound, "nope"), status.New(codes.Internal, ""), status.New(codes.FailedPrecondition, long)} {
 			for _, val := range []string{"", "payload", "payload-long-long-long-long-long-long-long-long-long-long-long-long-long-long-long-long-long-long-long-long-long-long-long-long-long"} {
 				count++
 				// the only method registered in a package this test can import: its request and
@@ -83,6 +84,10 @@ func TestGvcReplay(t *testing.T) {
 				var body proto.Message = &ordering.Metadata{MessageID: 7, Method: val}
 				if ty == responseType {
 					body = &ordering.Metadata{MessageID: 9, Method: val, Status: status.New(codes.Aborted, val).Proto()}
+				}
+				if val == "payload" {
+					// fields this binary does not know (a newer peer): they must survive the round trip
+					body.ProtoReflect().SetUnknown(protowire.AppendVarint(protowire.AppendTag(nil, 1000, protowire.VarintType), 77))
 				}
 				in := &Message{Metadata: md, Message: body, msgType: ty}
 				b, err := codec.Marshal(in)
@@ -127,5 +132,5 @@ func TestGvcReplay(t *testing.T) {
 			}()
 		}
 	}
-	t.Logf("GVC-REPLAY-OK scenarios=%d bound=\"4 causes x 4 targets; 4 handler errors; 18 round trips; %d byte strings x 3 message kinds\"", count, len(frames))
+	t.Logf("GVC-REPLAY-OK scenarios=%d bound=\"4 causes x 4 targets; 4 handler errors; 24 round trips; %d byte strings x 3 message kinds\"", count, len(frames))
 }
